@@ -4,11 +4,13 @@ from lib.common import zl, Raw
 SVC_VERBS = ["start", "stop", "pause", "resume", "restart", "disable", "enable", "fix", "scan", "compromise"]
 APP_VERBS = ["close", "fix", "scan", "compromise"]
 COQ_VERB = {"start": "Start", "stop": "Stop", "pause": "Pause", "resume": "Resume", "restart": "Restart", "disable": "Disable",
-            "enable": "Enable", "fix": "Fix", "scan": "Scan", "compromise": "Compromise", "close": "Close"}
+            "enable": "Enable", "fix": "Fix", "scan": "Scan", "compromise": "Compromise", "close": "Close", "execute": "Execute"}
+# applications whose execute request (re)opens the application before acting
+RUN_ON_EXECUTE = ("dos-bot", "ransomware-script", "data-manipulation-bot")
 # documented source states of each service request (None = any)
 SVC_SOURCE = {"start": ["STOPPED"], "stop": ["RUNNING"], "pause": ["RUNNING"], "resume": ["PAUSED"], "restart": ["RUNNING"], "disable": None,
               "enable": ["DISABLED"], "fix": ["RUNNING"], "scan": ["RUNNING"], "compromise": None}
-APP_SOURCE = {"close": ["RUNNING"], "fix": ["RUNNING"], "scan": ["RUNNING"], "compromise": None}
+APP_SOURCE = {"close": ["RUNNING"], "fix": ["RUNNING"], "scan": ["RUNNING"], "compromise": None, "execute": None}
 
 
 class SwBench:
@@ -69,9 +71,15 @@ class SwBench:
 
     def apply(self, name, op):
         k = op[0]
+        if k == "Req" and op[1] == "execute":
+            self.req(name, "execute")          # what the application then does is its own; only the lifecycle state is compared
+            return 1 if self.node.operating_state.name == "ON" else 2
         if k == "Req":
             r = self.req(name, op[1])
             return 1 if r.status == "success" else 2
+        if k == "Install":
+            self.sw(name).install()
+            return 1
         if k == "Tick":
             self.tick()
             return 1
@@ -100,12 +108,27 @@ def coq_ops(ops):
     return out
 
 
-def gen_ops(rng, is_service, n):
-    verbs = SVC_VERBS if is_service else APP_VERBS
+def gen_ops(rng, is_service, n, name=None):
+    verbs = SVC_VERBS if is_service else APP_VERBS + (["execute", "execute"] if name in RUN_ON_EXECUTE else [])
     ops = []
+    # overlapping timed processes are the interesting histories: start from one of them now and then
+    if rng.random() < 0.35:
+        T = ("Tick",)
+        if is_service:
+            ops += rng.choice([[("Req", "compromise"), ("Req", "fix"), ("Req", "restart"), T, T, T, T],
+                               [("Req", "fix"), T, ("Req", "restart"), T, T, T],
+                               [("Req", "restart"), ("Req", "compromise"), T, ("Req", "fix"), T, T, T],
+                               [("Req", "fix"), ("Req", "pause"), T, T, ("Req", "resume"), T],
+                               [("Req", "compromise"), ("Req", "fix"), ("NodeOff",), T, ("NodeOn",), T, T]])
+        else:
+            ops += rng.choice([[("Req", "close"), ("Install",), ("Req", "execute" if name in RUN_ON_EXECUTE else "scan"), T, T, T],
+                               [("Req", "close"), ("Install",), ("NodeOff",), ("NodeOn",), T, T],
+                               [("Req", "compromise"), ("Req", "fix"), ("Req", "close"), T, T, T]])
     for _ in range(n):
         x = rng.random()
-        if x < 0.55:
+        if not is_service and x < 0.08:
+            ops.append(("Install",))          # (re)installation of a closed application: INSTALLING for install_duration ticks
+        elif x < 0.55:
             ops.append(("Req", rng.choice(verbs)))
         elif x < 0.80:
             ops.append(("Tick",))
